@@ -501,6 +501,16 @@ func runC09(c *mon.Ctx) {
 				c.Violation("tree-codec-roundtrip", id, map[string]any{"tree": fmt.Sprint(tree), "text": string(txt), "err": fmt.Sprint(err)})
 			}
 			c.Class("codec:tree")
+			// the other head of a fork has the same size: each is encoded for what it is, in any order
+			fork := tree
+			fork.Hash[i%32] ^= 1 << uint(i%8)
+			ftxt := tlog.FormatTree(fork)
+			fback, ferr := tlog.ParseTree(ftxt)
+			if again := tlog.FormatTree(tree); ferr != nil || fback != fork || !bytes.Equal(again, txt) {
+				c.Violation("tree-codec-roundtrip", id, map[string]any{"tree": fmt.Sprint(fork), "text": string(ftxt), "err": fmt.Sprint(ferr), "formatted_just_before": fmt.Sprint(tree),
+					"first_text": string(txt), "first_tree_formatted_again": string(again)})
+			}
+			c.Class("codec:tree:two-heads-of-one-size")
 			// forward-compatible extra lines must not change the value
 			back, err = tlog.ParseTree(append(append([]byte(nil), txt...), "extra line\n"...))
 			if err != nil || back != tree {
